@@ -34,6 +34,7 @@ import (
 	"os"
 	"strings"
 	"sync"
+	"sync/atomic"
 	"testing"
 	"time"
 
@@ -111,6 +112,8 @@ type c12Stream struct {
 }
 
 func (s *c12Stream) set(b []byte) { s.mu.Lock(); s.in = b; s.mu.Unlock() }
+func (s *c12Stream) nframes() int64 { s.mu.Lock(); defer s.mu.Unlock(); return s.frames }
+func (s *c12Stream) left() int      { s.mu.Lock(); defer s.mu.Unlock(); return len(s.in) }
 func (s *c12Stream) Read(p []byte) (int, error) {
 	s.mu.Lock()
 	defer s.mu.Unlock()
@@ -155,6 +158,9 @@ type c12Sut struct {
 	sa, sb  *c12Stream
 	pidA    peer.ID
 	headH   uint64 // the head the sut is kept at
+	ev      [4]int64 // bus events seen: new tx, flip key, key package, flip
+	props   []*types.BlockProposal
+	emptyHash common.Hash
 	corpus  []c12Item
 	byCode  map[uint64][]int
 }
@@ -177,12 +183,23 @@ func c12NewSut(t *testing.T, name string, env *verifsim.C12Env, node *verifsim.C
 	s.h = protocol.NewIdenaGossipHandler(c12Host{}, nil, r.Cfg.P2P, r.Chain, node.Proposals, node.Votes, r.TxPool, node.Flipper, r.Bus, node.KeysPool, "1.1.0", c12Ceremony{})
 	// the bus subscriptions and the broadcast loop of IdenaGossipHandler.Start (the rest of
 	// Start needs a libp2p host)
-	r.Bus.Subscribe(events.NewTxEventID, func(e eventbus.Event) { s.h.VerifTxChan() <- e.(*events.NewTxEvent) })
-	r.Bus.Subscribe(events.NewFlipKeyID, func(e eventbus.Event) { s.h.VerifFlipKeyChan() <- e.(*events.NewFlipKeyEvent) })
+	r.Bus.Subscribe(events.NewTxEventID, func(e eventbus.Event) {
+		atomic.AddInt64(&s.ev[0], 1)
+		s.h.VerifTxChan() <- e.(*events.NewTxEvent)
+	})
+	r.Bus.Subscribe(events.NewFlipKeyID, func(e eventbus.Event) {
+		atomic.AddInt64(&s.ev[1], 1)
+		s.h.VerifFlipKeyChan() <- e.(*events.NewFlipKeyEvent)
+	})
 	r.Bus.Subscribe(events.NewFlipKeysPackageID, func(e eventbus.Event) {
+		atomic.AddInt64(&s.ev[2], 1)
 		s.h.VerifFlipKeysPackageChan() <- e.(*events.NewFlipKeysPackageEvent)
 	})
-	r.Bus.Subscribe(events.NewFlipEventID, func(e eventbus.Event) { s.h.VerifSendFlip(e.(*events.NewFlipEvent).Flip) })
+	r.Bus.Subscribe(events.NewFlipEventID, func(e eventbus.Event) {
+		atomic.AddInt64(&s.ev[3], 1)
+		s.h.VerifSendFlip(e.(*events.NewFlipEvent).Flip)
+	})
+	s.emptyHash = r.Chain.GenerateEmptyBlock().Hash()
 	go s.h.VerifBroadcastLoop()
 	s.dl = protocol.NewDownloader(s.h, r.Cfg, r.Chain, r.Ipfs, r.AppState, node.Snapshots, r.Bus, r.SecStore, r.Stats, nil, nil, r.Upgrader)
 	s.fr = consensus.NewForkResolver(nil, s.dl, r.Chain, r.Stats)
@@ -379,6 +396,7 @@ func (s *c12Sut) c12BuildCorpus(r *verifutil.Rng) {
 		}
 		props = append(props, env.Proposals...) // foreign heads
 	}
+	s.props = props
 	for i, p := range props {
 		s.add(protocol.ProposeBlock, c12Must(p.ToBytes()), fmt.Sprintf("proposal#%d", i))
 		key := c12KeyOf(w, p.Block.Header.ProposedHeader.ProposerPubKey)
@@ -718,7 +736,7 @@ func (s *c12Sut) feed(c *c12Ctx, entry string, stream []byte) (error, bool) {
 	s.sa.set(stream)
 	var err error
 	ok := c.call(entry, stream, true, func() { err = s.peer().handle() })
-	if len(s.sa.in) > 0 || err != nil {
+	if s.sa.left() > 0 || err != nil {
 		// a real node drops the connection on any error; the next case is a new connection
 		s.sa.set(nil)
 		s.peer().reset()
